@@ -417,6 +417,18 @@ def monitorOp (mu : Mon) (prev : Args) (toks : List String) (implOk : Bool) (out
       keys.filterMap fun k =>
         if norm vOwner k == norm vSp k && norm vOwner k == norm vPt k then none
         else some (mk "C19" "C19/views-differ" s!"pair={k.1}>{k.2}")
+    -- ---------- C20: the by-spender listing returns exactly the current items.  Model-independent: the pairs
+    -- the harness collected by paging AllSpenderAllowances for every pool spender against the pairs it
+    -- collected by paging AllAllowances for every pool owner (all allowances are between pool actors).
+    -- Same legacy guard as C19: before `migrate` a pre-0.14 state has no by-spender index.
+    let f20 := if mu.legacy then [] else
+      let ko := vOwner.map (·.1); let ks := vSp.map (·.1)
+      let ghost := ks.filter fun k => !ko.contains k
+      let missing := ko.filter fun k => !ks.contains k
+      if ghost.isEmpty && missing.isEmpty then [] else
+        let r (l : List (String × String)) := "+".intercalate (l.map fun k => s!"{k.1}>{k.2}")
+        [mk "C20" "C20/spender-listing-vs-current-items"
+          s!"listed_by_spender_but_not_current={r ghost} current_but_not_listed_by_spender={r missing}"]
     -- ---------- C02
     let f2 := if fresh || mu.legacy then [] else
       let dec := changed.filter fun k => balOf cur k < balOf prev k
@@ -486,7 +498,7 @@ def monitorOp (mu : Mon) (prev : Args) (toks : List String) (implOk : Bool) (out
     let fg := mu.drawn.filterMap fun (k, d) =>
       if d ≤ (mu.granted.get? k).getD 0 then none
       else some (mk "C02" "C02/cumulative" s!"pair={k.1}>{k.2} drawn={d} granted={(mu.granted.get? k).getD 0}")
-    (mu, f1 ++ f13 ++ f19 ++ f2 ++ fg)
+    (mu, f1 ++ f13 ++ f19 ++ f20 ++ f2 ++ fg)
 
 def scen : Scen MState Mon where
   init h := { pool := h.list "pool" }
